@@ -1307,7 +1307,7 @@ Proof.
   - intros k v. unfold by_labels. rewrite in_flat_map, filter_In. split.
     + intros [f [Hf Hin]]. destruct (lookup f ls) as [w|] eqn:El; [|destruct Hin].
       destruct Hin as [E|[]]. injection E as <- <-. split; [apply (lookup_nodup ls Hn); exact El|].
-      cbn [fst]. rewrite negb_true_iff, mem_str_false. unfold rest. rewrite filter_In, negb_true_iff, mem_str_false. tauto.
+      cbn [fst]. rewrite negb_true_iff, mem_str_false. unfold rest. rewrite filter_In, negb_true_iff, mem_str_false. Show. tauto.
     + intros [Hin Hm]. cbn [fst] in Hm. rewrite negb_true_iff, mem_str_false in Hm. unfold rest in Hm.
       rewrite filter_In, negb_true_iff, mem_str_false in Hm.
       assert (Hk : In k (map fst ls)) by (apply in_map_iff; exists (k, v); auto).
